@@ -43,15 +43,46 @@ def strip_cb1(case):
 
 
 def build_variants(ctx, names):
+    """builds the named variants of harness/cl.cpp.  A variant that no longer compiles against the headers (e.g. the functor
+    callback, which has no default constructor, after a change that default-constructs callbacks) is recorded in
+    ctx.harness_failures and the other variants — all of them, as substitutes — are used to look for a failing input;
+    only when no variant compiles is the correspondence impossible."""
     specs = [dict(name='cl_' + n, src='cl.cpp', defs=VARIANTS[n]) for n in names]
     res = vlib.build_many(ctx, specs)
-    bins = {}
+    bins, failed = {}, {}
     for n in names:
         path, err = res['cl_' + n]
         if path is None:
+            failed[n] = err
+        else:
+            bins[n] = path
+    if failed:
+        others = [n for n in VARIANTS if n not in names]
+        res2 = vlib.build_many(ctx, [dict(name='cl_' + n, src='cl.cpp', defs=VARIANTS[n]) for n in others]) if others else {}
+        for n in others:
+            path, err = res2['cl_' + n]
+            if path is not None:
+                bins[n] = path
+        if not bins:
+            n, err = sorted(failed.items())[0]
             raise RuntimeError('harness cl.cpp (%s) does not compile against /repo: %s' % (n, err[-1500:]))
-        bins[n] = path
+        prev = getattr(ctx, 'harness_failures', {})
+        prev.update(failed)
+        ctx.harness_failures = prev
+        ctx.notes.append('harness variant(s) %s no longer compile against the headers; used instead: %s' % (', '.join(sorted(failed)), ', '.join(sorted(bins))))
     return bins
+
+
+def report_harness_failures(ctx):
+    """a configuration the property covers (a callback type the library accepted) is rejected by the compiler now: reported,
+    without a failing input unless another variant produced one"""
+    failed = getattr(ctx, 'harness_failures', None)
+    if failed and not ctx.violations:
+        n, err = sorted(failed.items())[0]
+        ctx.violation('# correspondence that could not be carried out: harness/cl.cpp variant %s (defines %s) no longer compiles against the headers\n# %s\n'
+                      % (n, ' '.join(VARIANTS[n]), err[-1500:].replace('\n', '\n# ')),
+                      'harness variant %s does not compile against the headers any more (a callback type that was accepted is rejected): %s'
+                      % (n, err.strip().splitlines()[-1][:200] if err.strip() else ''), no_input=True)
 
 
 def corpus_cases(sub='cl'):
@@ -103,6 +134,7 @@ def run(ctx, prop_files, flavours, n_quick, n_thorough, keep=lambda l: True, var
         if not ctx.samples and usable:
             for i in usable[ncorpus:ncorpus + 2]:
                 ctx.samples.append({'case': texts[i].strip().split('\n'), 'model_trace': model[i][:40]})
+    report_harness_failures(ctx)
     if not proof['ok'] and not ctx.violations and report_unfound:
         ctx.violation('# no failing input found by %d generated cases against the spec oracle\n# broken obligation(s):\n# %s\n'
                       % (tot['compared'], '\n# '.join(proof['errors'])),
